@@ -222,6 +222,7 @@ def run(ctx, with_model=True):
                         ctx.violation(f"confidence_interval({a}, confidence={c}, {m!r}) = {json.dumps(oa)[:90]} but with the same values as floats/ints {b}: {json.dumps(ob)[:90]}",
                                       {"a": repr(a), "b": repr(b), "c": c, "m": m, "impl_a": oa, "impl_b": ob})
     thread_stress(ctx, 1.5 if ctx.tier == "quick" else 20.0)
+    schedules(ctx, 30 if ctx.tier == "quick" else 400)
     # narrowing with n, widening with confidence (tolerance: a few ulp of the width scale)
     for m in METHODS:
         for p in ps:
@@ -247,5 +248,22 @@ def run(ctx, with_model=True):
                     prev = (c, w)
 
 
+def schedules(ctx, budget):
+    """systematic one-preemption schedules (harness/sched.py) over two calls at different confidence levels"""
+    import sched
+
+    def make_ops():
+        from pyab_experiment.utils import stats
+        ci = lambda c, m="agresti-coull": (lambda: list(stats.confidence_interval(n=40, p=0.3, confidence=c, method=m)))
+        return ci(0.999), ci(0.5), [ci(0.999), ci(0.9, "wald"), lambda: stats.probit(0.01)]
+    findings, tried = sched.explore(make_ops, budget, ctx.rng)
+    ctx.count("schedules:two confidence levels", tried)
+    for f in findings[:1]:
+        ctx.violation(f"one-preemption schedule: a call at confidence 0.999 suspended at its line event {f.get('k')} while a call at 0.5 runs — the results are those of "
+                      f"neither serial order: {json.dumps(f)[:300]}", f)
+
+
 def search(ctx):
-    run(ctx, with_model=False)
+    schedules(ctx, 400)
+    if not ctx.violations:
+        run(ctx, with_model=False)
